@@ -290,6 +290,16 @@ func TestC03(t *testing.T) {
 	rec := ev.New(t, "C03")
 	rec.Rule("rapid-generated churn history (as C02: concurrent joins/leaves, adversarial ids, seeded call delays) with 2..4 concurrent client goroutines; each key is written by exactly one client (so 'latest acknowledged' is well defined) with Put/Delete/PrefixAppend/PrefixRemove of unique values through generated live entry nodes, retrying retryable errors (<=50 attempts); node backends drawn from {memory, aof, sqlite}. After the quiet period every remaining node is asked Get/PrefixList for every key and the answers are compared with a per-key model of the ACKNOWLEDGED operations (a write that was never acknowledged makes its key indeterminate: excluded and counted). Non-trivial: a key with an overwritten/deleted value or removed child was moved by at least one key transfer (seen in the storage wrapper's Import log). Distinct = distinct plans.")
 	rec.Assume("refusal to serve after quiescence is reported by C06/C07, not here; rings that do not converge are C02's business (counted inconclusive)")
+	// regression tier: the minimal schedule of a data loss found by the thorough tier
+	if p, holder, owner := staleSuccessorLeave(); p != "" {
+		if len(p) > 13 && p[:13] == "precondition:" {
+			rec.Inconclusive("regression-schedule-precondition")
+			t.Logf("stale-successor regression: %s", p)
+		} else {
+			rec.Fail(t, "leave-through-stale-successor-misplaces-keys", map[string]any{"schedule": "ring {1000,2000,3000}; 2000 starts to leave (successor 3000); 2500 joins via 3000 before RequestToLeave is delivered; 3000 grants the leave", "holder": holder, "owner": owner, "problem": p},
+				"acknowledged key lost after a leave that raced a join at the successor: %s", p)
+		}
+	}
 	backs := ev.Pick([]int{0, 0, 0, 0, 0, 1, 2}, []int{0, 0, 1, 2})
 	ev.RapidCheck(t, 30, 640, func(t *rapid.T) {
 		p := genDataPlan(ev.Pick(4, 6), backs).Draw(t, "plan")
